@@ -105,31 +105,24 @@ fn canon(e: &Emmyrc) -> Value {
     serde_json::to_value(e).unwrap_or(Value::Null)
 }
 
-fn first_diff(a: &Value, b: &Value, path: &str) -> Option<(String, &'static str)> {
-    match (a, b) {
-        (Value::Object(x), Value::Object(y)) => {
-            let keys: BTreeSet<&String> = x.keys().chain(y.keys()).collect();
-            for k in keys {
-                let p = if path.is_empty() { k.to_string() } else { format!("{path}.{k}") };
-                match (x.get(k), y.get(k)) {
-                    (Some(u), Some(v)) => {
-                        if let Some(d) = first_diff(u, v, &p) {
-                            return Some(d);
-                        }
-                    }
-                    (Some(u), None) | (None, Some(u)) => return Some((p, if u.is_array() { "array" } else { "scalar" })),
-                    _ => {}
-                }
-            }
-            None
+/// files written once; `load` may then be repeated
+struct Written {
+    paths: Vec<PathBuf>,
+    partials: Option<Vec<Value>>,
+}
+
+impl Written {
+    fn load(&self) -> Result<Emmyrc, Verdict> {
+        match catch(|| load_configs(self.paths.clone(), self.partials.clone())) {
+            Ok(e) => Ok(e),
+            Err(_) => Err(Verdict::Skip("panic(C31)".into())),
         }
-        (u, v) if u == v => None,
-        (u, v) => Some((path.to_string(), if u.is_array() || v.is_array() { "array" } else { "scalar" })),
     }
 }
 
 impl C32 {
-    fn write_and_load(&self, local: &Local, files: &[FileC], tag: &str) -> Result<Emmyrc, Verdict> {
+    /// the loader only looks at the extension (`.lua` or not), so flat file names in the per-thread directory do
+    fn write(&self, local: &Local, files: &[FileC], tag: &str) -> Result<Written, Verdict> {
         let mut paths = vec![];
         let mut partials = vec![];
         for (i, f) in files.iter().enumerate() {
@@ -138,26 +131,28 @@ impl C32 {
                 partials.push(obj);
                 continue;
             }
-            let sub = local.dir.join(format!("{tag}{i}"));
-            if std::fs::create_dir_all(&sub).is_err() {
-                return Err(Verdict::Skip("cannot-create-workdir".into()));
-            }
             let (name, text) = match f.form {
-                0 => (".emmyrc.json", serde_json::to_string_pretty(&obj).unwrap()),
-                1 => (".luarc.json", serde_json::to_string(&obj).unwrap()),
-                _ => (".emmyrc.lua", format!("return {}\n", configs::to_lua(&obj))),
+                0 => (format!("{tag}{i}.emmyrc.json"), serde_json::to_string_pretty(&obj).unwrap()),
+                1 => (format!("{tag}{i}.luarc.json"), serde_json::to_string(&obj).unwrap()),
+                _ => (format!("{tag}{i}.emmyrc.lua"), format!("return {}\n", configs::to_lua(&obj))),
             };
-            let p = sub.join(name);
+            let p = local.dir.join(name);
             if std::fs::write(&p, text).is_err() {
                 return Err(Verdict::Skip("cannot-write-file".into()));
             }
             paths.push(p);
         }
         let partials = if partials.is_empty() { None } else { Some(partials) };
-        match catch(|| load_configs(paths, partials)) {
-            Ok(e) => Ok(e),
-            Err(_) => Err(Verdict::Skip("panic(C31)".into())),
-        }
+        Ok(Written { paths, partials })
+    }
+    fn write_and_load(&self, local: &Local, files: &[FileC], tag: &str) -> Result<Emmyrc, Verdict> {
+        self.write(local, files, tag)?.load()
+    }
+}
+
+impl Drop for Local {
+    fn drop(&mut self) {
+        let _ = std::fs::remove_dir_all(&self.dir);
     }
 }
 
@@ -280,10 +275,10 @@ impl Property for C32 {
         Local { dir: work.join(format!("c32-{}-{}", std::process::id(), k)) }
     }
     fn check(&self, c: &Case, local: &mut Local, obs: &mut Obs) -> Verdict {
-        let _ = std::fs::remove_dir_all(&local.dir);
-        let v = self.judge(c, local, obs);
-        let _ = std::fs::remove_dir_all(&local.dir);
-        v
+        if !local.dir.is_dir() && std::fs::create_dir_all(&local.dir).is_err() {
+            return Verdict::Skip("cannot-create-workdir".into());
+        }
+        self.judge(c, local, obs)
     }
 }
 
@@ -307,8 +302,12 @@ impl C32 {
             files[0].settings.insert(if val & 1 == 0 { 0 } else { n }, pre);
             obs.class("collide");
             let mut firstv: Option<Value> = None;
+            let written = match self.write(local, &files, "f") {
+                Ok(w) => w,
+                Err(v) => return v,
+            };
             for _ in 0..8 {
-                let e = match self.write_and_load(local, &files, "f") {
+                let e = match written.load() {
                     Ok(e) => e,
                     Err(v) => return v,
                 };
@@ -316,7 +315,11 @@ impl C32 {
                 match &firstv {
                     None => firstv = Some(v),
                     Some(f) if *f != v => {
-                        return Verdict::fail("nondeterministic", format!("same files, different configuration (collision class): {} vs {}; {}", one_line(&f.to_string(), 400), one_line(&v.to_string(), 400), describe(&files)));
+                        let (path, _) = cfgmodel::first_diff(f, &v, "").unwrap_or(("?".into(), "scalar"));
+                        return Verdict::fail(
+                            "nondeterministic",
+                            format!("same files, different configuration (collision class) at `{path}`: {} vs {}; {}", cfgmodel::at(f, &path), cfgmodel::at(&v, &path), describe(&files)),
+                        );
                     }
                     _ => {}
                 }
@@ -381,8 +384,12 @@ impl C32 {
 
         // determinism over repetitions
         let mut actual: Option<Value> = None;
+        let written = match self.write(local, &files, "f") {
+            Ok(w) => w,
+            Err(v) => return v,
+        };
         for rep in 0..6 {
-            let e = match self.write_and_load(local, &files, "f") {
+            let e = match written.load() {
                 Ok(e) => e,
                 Err(v) => return v,
             };
@@ -390,14 +397,18 @@ impl C32 {
             match &actual {
                 None => actual = Some(v),
                 Some(a) if *a != v => {
-                    return Verdict::fail("nondeterministic", format!("repetition {rep} gave a different configuration: {} vs {}; {}", one_line(&a.to_string(), 400), one_line(&v.to_string(), 400), describe(&files)));
+                    let (path, _) = cfgmodel::first_diff(a, &v, "").unwrap_or(("?".into(), "scalar"));
+                    return Verdict::fail(
+                        "nondeterministic",
+                        format!("repetition {rep} gave a different configuration at `{path}`: {} vs {}; {}", cfgmodel::at(a, &path), cfgmodel::at(&v, &path), describe(&files)),
+                    );
                 }
                 _ => {}
             }
         }
         let actual = actual.unwrap();
         if actual != expected {
-            let (path, kind) = first_diff(&expected, &actual, "").unwrap_or(("?".into(), "scalar"));
+            let (path, kind) = cfgmodel::first_diff(&expected, &actual, "").unwrap_or(("?".into(), "scalar"));
             let get = |v: &Value| path.split('.').try_fold(v.clone(), |acc, k| acc.get(k).cloned());
             let default_back = actual == canon(&Emmyrc::default());
             let sig = if default_back {
@@ -437,7 +448,7 @@ impl C32 {
             };
             let v = canon(&e);
             if v != actual {
-                let (path, kind) = first_diff(&actual, &v, "").unwrap_or(("?".into(), "scalar"));
+                let (path, kind) = cfgmodel::first_diff(&actual, &v, "").unwrap_or(("?".into(), "scalar"));
                 return Verdict::fail(
                     format!("respell:{kind}"),
                     format!("re-spelling file {fi} changed the configuration at `{path}`; before: {} after: {}", describe(&files), describe(&respelled)),
